@@ -1341,6 +1341,13 @@ func (p *constructPlan) Execute(ctx context.Context) (*table.Table, error) {
 		}
 		done <- true
 	}()
+	// On every exit path, errors included, tell the writer that no more triples
+	// follow and wait until it has stored what it received; otherwise it stays
+	// blocked on tripChan forever.
+	defer func() {
+		close(tripChan)
+		<-done
+	}()
 
 	for _, cc := range p.stm.ConstructClauses() {
 		for _, r := range tbl.Rows() {
@@ -1373,9 +1380,7 @@ func (p *constructPlan) Execute(ctx context.Context) (*table.Table, error) {
 			}
 		}
 	}
-	close(tripChan)
-	// Wait until all triples are added to the store.
-	<-done
+	// The deferred close waits until all triples are added to the store.
 	return tbl, nil
 }
 
